@@ -8,4 +8,8 @@ mkdir -p work evidence replays
 cd lean
 lake build 2>&1 | grep -v '^trace' | tail -n 40
 test -x .lake/build/bin/driver
+# every module must be importable next to every other one (no two files may define the same name): the per-property
+# audits import several proof files together
+( for f in $(find Ubx -name '*.lean' | sort); do m=${f%.lean}; echo "import ${m//\//.}"; done ) > ../work/ImportAll.lean
+lake env lean ../work/ImportAll.lean
 echo "setup ok"
